@@ -41,9 +41,10 @@ func (s *verifScript) Int63() int64 {
 	case s.prng != nil:
 		v = s.prng.Int63()
 	case s.base == "zero":
-		v = 0
+		// near-zero stream; a constant stream would spin forever inside math/rand's own rejection sampling
+		v = []int64{0, 1, 2, 3, 5, 7, 11, 13}[i%8] << 32
 	case s.base == "max":
-		v = 1<<63 - 1
+		v = (1<<31-1-[]int64{0, 1, 2, 3, 5, 7, 4096, 1 << 20}[i%8])<<32 | 0xffffffff
 	case s.base == "count":
 		s.cnt += 0x0101010101010101
 		v = s.cnt & (1<<63 - 1)
